@@ -29,6 +29,21 @@ def lets(fn):
     return out
 
 
+def named_values(fn):
+    """locals that only name a value or a place (never assigned again, one initialiser text): xmax = boxsize.x/2.,
+    p = &particles[i], boundary = r->boundary ... - conditions and updates are read with these names resolved."""
+    mutated = {render(e['inner'][0]) for e in walk(cfront.body(fn)) if cfront.is_assign(e)}
+    mutated |= {render(x['inner'][0]) for x in walk(cfront.body(fn)) if x.get('kind') == 'UnaryOperator' and x.get('opcode') in ('++', '--')}
+    lv = loop_vars(fn)
+    seen = {}
+    for d in walk(cfront.body(fn)):
+        if d.get('kind') == 'VarDecl' and 'init' in d and d.get('name') not in lv:
+            init = [c for c in d.get('inner', []) if c.get('kind') not in ('FullComment',)]
+            if init:
+                seen.setdefault(d['name'], set()).add(render(init[-1]).replace(' ', ''))
+    return {k: next(iter(v)) for k, v in seen.items() if len(v) == 1 and k not in mutated}
+
+
 def resolve(s, L, depth=0):
     if depth > 6:
         return s
